@@ -6,53 +6,46 @@ Import ListNotations.
 Open Scope string_scope.
 
 Definition expected_wraps_C01 : list string := [
-  "crypto/lm: << uint8: _[0] << 7";
-  "crypto/lm: << uint8: _[0] << 7";
-  "crypto/lm: << uint8: _[1] << 6";
-  "crypto/lm: << uint8: _[1] << 6";
-  "crypto/lm: << uint8: _[2] << 5";
-  "crypto/lm: << uint8: _[2] << 5";
-  "crypto/lm: << uint8: _[3] << 4";
-  "crypto/lm: << uint8: _[3] << 4";
-  "crypto/lm: << uint8: _[4] << 3";
-  "crypto/lm: << uint8: _[4] << 3";
-  "crypto/lm: << uint8: _[5] << 2";
-  "crypto/lm: << uint8: _[5] << 2";
-  "crypto/lm: << uint8: _[6] << 1";
-  "crypto/lm: << uint8: _[6] << 1";
-  "crypto/md4: * uint64: uint64(_) * 8";
-  "crypto/md4: + uint32: _ + ((_ & _) | (_ & (_ | _)))";
-  "crypto/md4: + uint32: _ + ((_ & _) | (_ & (_ | _))) + _";
-  "crypto/md4: + uint32: _ + ((_ & _) | (_ & (_ | _))) + _ + 0x5a827999";
-  "crypto/md4: + uint32: _ + (_ ^ (_ & (_ ^ _)))";
-  "crypto/md4: + uint32: _ + (_ ^ (_ & (_ ^ _))) + _";
-  "crypto/md4: + uint32: _ + (_ ^ _ ^ _)";
-  "crypto/md4: + uint32: _ + (_ ^ _ ^ _) + _";
-  "crypto/md4: + uint32: _ + (_ ^ _ ^ _) + _ + 0x6ed9eba1";
-  "crypto/md4: += uint32: _.state[0] += _";
-  "crypto/md4: += uint32: _.state[1] += _";
-  "crypto/md4: += uint32: _.state[2] += _";
-  "crypto/md4: += uint32: _.state[3] += _";
-  "crypto/md4: += uint64: _ += _";
-  "crypto/md4: += uint64: _.count += uint64(_) * 8";
-  "crypto/md4: - uint32: 32 - _";
-  "crypto/md4: - uint64: 56 - _";
-  "crypto/md4: - uint64: _.count/8 - uint64(_)";
-  "crypto/md4: << uint32: _ << _";
-  "utils/encoding/utf16: << uint16: uint16(_[_+1]) << 8"
+  "crypto/lm: << uint8: (_ << 1)";
+  "crypto/lm: << uint8: (_ << 1)";
+  "crypto/lm: << uint8: (_ << 2)";
+  "crypto/lm: << uint8: (_ << 2)";
+  "crypto/lm: << uint8: (_ << 3)";
+  "crypto/lm: << uint8: (_ << 3)";
+  "crypto/lm: << uint8: (_ << 4)";
+  "crypto/lm: << uint8: (_ << 4)";
+  "crypto/lm: << uint8: (_ << 5)";
+  "crypto/lm: << uint8: (_ << 5)";
+  "crypto/lm: << uint8: (_ << 6)";
+  "crypto/lm: << uint8: (_ << 6)";
+  "crypto/lm: << uint8: (_ << 7)";
+  "crypto/lm: << uint8: (_ << 7)";
+  "crypto/md4: * uint64: (uint64(_) * 8)";
+  "crypto/md4: + uint32: (((_ + ((_ & _) | (_ & (_ | _)))) + _) + 1518500249)";
+  "crypto/md4: + uint32: (((_ + ((_ ^ _) ^ _)) + _) + 1859775393)";
+  "crypto/md4: + uint32: ((_ + ((_ & _) | (_ & (_ | _)))) + _)";
+  "crypto/md4: + uint32: ((_ + ((_ ^ _) ^ _)) + _)";
+  "crypto/md4: + uint32: ((_ + (_ ^ (_ & (_ ^ _)))) + _)";
+  "crypto/md4: + uint32: (_ + ((_ & _) | (_ & (_ | _))))";
+  "crypto/md4: + uint32: (_ + ((_ ^ _) ^ _))";
+  "crypto/md4: + uint32: (_ + (_ ^ (_ & (_ ^ _))))";
+  "crypto/md4: += uint32: _ += _";
+  "crypto/md4: += uint32: _ += _";
+  "crypto/md4: += uint32: _ += _";
+  "crypto/md4: += uint32: _ += _";
+  "crypto/md4: += uint64: _ += (uint64(_) * 8)";
+  "crypto/md4: += uint64: _ += 64";
+  "crypto/md4: - uint32: (32 - _)";
+  "crypto/md4: - uint64: ((_ / 8) - uint64(_))";
+  "crypto/md4: - uint64: (56 - _)";
+  "crypto/md4: << uint32: (_ << _)"
 ].
 
 Definition expected_wraps_C02 : list string := [
-  "crypto/ntlmv1: << uint8: 1 << (7 - _)";
-  "crypto/ntlmv1: narrow to uint8: byte(ParityBit(int(_)))";
-  "network/smb/smb_v10/spnego/ntlm: << uint8: (_[0] & 0x01) << 6";
-  "network/smb/smb_v10/spnego/ntlm: << uint8: (_[1] & 0x03) << 5";
-  "network/smb/smb_v10/spnego/ntlm: << uint8: (_[2] & 0x07) << 4";
-  "network/smb/smb_v10/spnego/ntlm: << uint8: (_[3] & 0x0F) << 3";
-  "network/smb/smb_v10/spnego/ntlm: << uint8: (_[4] & 0x1F) << 2";
-  "network/smb/smb_v10/spnego/ntlm: << uint8: (_[5] & 0x3F) << 1";
-  "network/smb/smb_v10/spnego/ntlm: << uint8: 1 << _";
-  "network/smb/smb_v10/spnego/ntlm: << uint8: _[_] << 1";
+  "crypto/ntlmv1: << uint8: (1 << (7 - _))";
+  "crypto/ntlmv1: narrow to uint8: byte(_)";
+  "network/smb/smb_v10/spnego/ntlm: << uint8: (1 << _)";
+  "network/smb/smb_v10/spnego/ntlm: << uint8: (_ << 1)";
   "network/smb/smb_v10/spnego/ntlm: narrow to uint16: uint16(len(_))";
   "network/smb/smb_v10/spnego/ntlm: narrow to uint16: uint16(len(_))";
   "network/smb/smb_v10/spnego/ntlm: narrow to uint16: uint16(len(_))";
@@ -81,14 +74,11 @@ Definition expected_wraps_C02 : list string := [
 
 Definition expected_wraps_C03 : list string := [
   "network/smb/smb_v10/message/data: narrow to uint16: uint16(len(_))";
-  "network/smb/smb_v10/message/data: narrow to uint16: uint16(len(_.Bytes))";
-  "network/smb/smb_v10/message/parameters: << uint16: uint16(_[_]) << 8";
-  "network/smb/smb_v10/message/parameters: narrow to uint16: uint16(len(_.Words))";
-  "network/smb/smb_v10/message/parameters: narrow to uint8: uint8(_ & 0xFF)";
-  "network/smb/smb_v10/message/parameters: narrow to uint8: uint8(_ >> 8)";
-  "network/smb/smb_v10/message/parameters: narrow to uint8: uint8(len(_.Words) * 2)";
-  "network/smb/smb_v10/message/parameters: narrow to uint8: uint8(len(_.Words))";
-  "network/smb/smb_v10/message/parameters: narrow to uint8: uint8(len(_.Words))"
+  "network/smb/smb_v10/message/data: narrow to uint16: uint16(len(_))";
+  "network/smb/smb_v10/message/parameters: narrow to uint16: uint16(len(_))";
+  "network/smb/smb_v10/message/parameters: narrow to uint8: uint8((len(_) * 2))";
+  "network/smb/smb_v10/message/parameters: narrow to uint8: uint8(len(_))";
+  "network/smb/smb_v10/message/parameters: narrow to uint8: uint8(len(_))"
 ].
 
 Definition expected_wraps_C04 : list string := [
@@ -96,9 +86,8 @@ Definition expected_wraps_C04 : list string := [
 ].
 
 Definition expected_wraps_C05 : list string := [
-  "network/smb/smb_v10/types: - uint16: _.Year - 1980";
-  "network/smb/smb_v10/types: << uint16: (_.Year - 1980) << 9";
-  "network/smb/smb_v10/types: << uint16: uint16(_.Month) << 5";
+  "network/smb/smb_v10/types: - uint16: (_ - 1980)";
+  "network/smb/smb_v10/types: << uint16: ((_ - 1980) << 9)";
   "network/smb/smb_v10/types: narrow to uint16: uint16(_)";
   "network/smb/smb_v10/types: narrow to uint16: uint16(len(_))";
   "network/smb/smb_v10/types: narrow to uint16: uint16(len(_))";
@@ -109,118 +98,61 @@ Definition expected_wraps_C05 : list string := [
 
 Definition expected_wraps_C06 : list string := [
   "network/smb/smb_v10/message/data: narrow to uint16: uint16(len(_))";
-  "network/smb/smb_v10/message/data: narrow to uint16: uint16(len(_.Bytes))";
-  "network/smb/smb_v10/message/parameters: << uint16: uint16(_[_]) << 8";
-  "network/smb/smb_v10/message/parameters: narrow to uint16: uint16(len(_.Words))";
-  "network/smb/smb_v10/message/parameters: narrow to uint8: uint8(_ & 0xFF)";
-  "network/smb/smb_v10/message/parameters: narrow to uint8: uint8(_ >> 8)";
-  "network/smb/smb_v10/message/parameters: narrow to uint8: uint8(len(_.Words) * 2)";
-  "network/smb/smb_v10/message/parameters: narrow to uint8: uint8(len(_.Words))";
-  "network/smb/smb_v10/message/parameters: narrow to uint8: uint8(len(_.Words))";
-  "network/smb/smb_v10/types: - uint16: _.Year - 1980";
-  "network/smb/smb_v10/types: << uint16: (_.Year - 1980) << 9";
-  "network/smb/smb_v10/types: << uint16: uint16(_.Month) << 5";
+  "network/smb/smb_v10/message/data: narrow to uint16: uint16(len(_))";
+  "network/smb/smb_v10/message/parameters: narrow to uint16: uint16(len(_))";
+  "network/smb/smb_v10/message/parameters: narrow to uint8: uint8((len(_) * 2))";
+  "network/smb/smb_v10/message/parameters: narrow to uint8: uint8(len(_))";
+  "network/smb/smb_v10/message/parameters: narrow to uint8: uint8(len(_))";
+  "network/smb/smb_v10/types: - uint16: (_ - 1980)";
+  "network/smb/smb_v10/types: << uint16: ((_ - 1980) << 9)";
   "network/smb/smb_v10/types: narrow to uint16: uint16(_)";
   "network/smb/smb_v10/types: narrow to uint16: uint16(len(_))";
   "network/smb/smb_v10/types: narrow to uint16: uint16(len(_))";
   "network/smb/smb_v10/types: narrow to uint16: uint16(len(_))";
   "network/smb/smb_v10/types: narrow to uint8: uint8(_)";
   "network/smb/smb_v10/types: narrow to uint8: uint8(_)";
-  "windows/ms_dtyp/common/data_structures: * int64: (_ % 10000000) * 100";
-  "windows/ms_dtyp/common/data_structures: - int64: _/10000000 - _/10000000";
-  "windows/ms_dtyp/common/data_structures: << int64: int64(_.DwHighDateTime) & 0xFFFFFFFF << 32"
+  "windows/ms_dtyp/common/data_structures: * int64: ((_ % 10000000) * 100)";
+  "windows/ms_dtyp/common/data_structures: - int64: ((_ / 10000000) - 11644473600)";
+  "windows/ms_dtyp/common/data_structures: << int64: ((int64(_) & 4294967295) << 32)"
 ].
 
 Definition expected_wraps_C07 : list string := [
   "crypto/pkcs7: narrow to uint8: byte(_)";
-  "crypto/uuid: << uint8: (_.Variant & 0xF) << 4";
-  "crypto/uuid: << uint8: (_.Version & 0xF) << 4";
-  "crypto/uuid: << uint8: (_[6] & 0x0F) << 4";
-  "crypto/uuid: << uint8: (_[7] & 0x0F) << 4";
-  "crypto/uuid: << uint8: _ & 0xF << 4";
-  "crypto/uuid/uuid_v1: * int64: int64(_%10000000) * 100";
-  "crypto/uuid/uuid_v1: - int64: int64(_/10000000) - int64(_/10000000)";
-  "crypto/uuid/uuid_v1: << uint8: byte(_&0x0F) << 4";
-  "crypto/uuid/uuid_v1: narrow to uint16: uint16((_.Time & 0x0000FFFF00000000) >> 32)";
-  "crypto/uuid/uuid_v1: narrow to uint16: uint16((_.Time & 0x0FFF000000000000) >> 48)";
-  "crypto/uuid/uuid_v1: narrow to uint32: uint32(_.Time & 0x00000000FFFFFFFF)";
-  "crypto/uuid/uuid_v1: narrow to uint8: byte((_ >> 4) & 0xFF)";
-  "crypto/uuid/uuid_v1: narrow to uint8: byte((_.ClockSeq & 0x0F00) >> 8)";
-  "crypto/uuid/uuid_v1: narrow to uint8: byte(_ & 0x0F)";
-  "crypto/uuid/uuid_v1: narrow to uint8: byte(_.ClockSeq & 0xFF)";
-  "crypto/uuid/uuid_v2: * int64: int64(_%10000000) * 100";
-  "crypto/uuid/uuid_v2: - int64: int64(_/10000000) - int64(_/10000000)";
-  "crypto/uuid/uuid_v2: << uint8: byte(_&0x0F) << 4";
-  "crypto/uuid/uuid_v2: narrow to uint16: uint16((_.Time & 0x0000FFFF00000000) >> 32)";
-  "crypto/uuid/uuid_v2: narrow to uint16: uint16((_.Time & 0x0FFF000000000000) >> 48)";
-  "crypto/uuid/uuid_v2: narrow to uint8: byte((_ >> 4) & 0xFF)";
-  "crypto/uuid/uuid_v2: narrow to uint8: byte(_ & 0x0F)";
-  "network/ip: - uint8: 32 - _.MaskBits";
-  "network/ip: - uint8: 32 - _.MaskBits";
-  "network/ip: << uint32: uint32(0xFFFFFFFF) << (32 - _.MaskBits)";
-  "network/ip: << uint32: uint32(0xFFFFFFFF) << (32 - _.MaskBits)";
-  "network/ip: << uint32: uint32(_.A) << 24";
-  "network/ip: << uint32: uint32(_.B) << 16";
-  "network/ip: << uint32: uint32(_.C) << 8";
-  "network/ip: << uint64: uint64(_.A) << 48";
-  "network/ip: << uint64: uint64(_.B) << 32";
-  "network/ip: << uint64: uint64(_.C) << 16";
-  "network/ip: << uint64: uint64(_.E) << 48";
-  "network/ip: << uint64: uint64(_.F) << 32";
-  "network/ip: << uint64: uint64(_.G) << 16";
+  "network/ip: - uint8: (32 - _)";
+  "network/ip: - uint8: (32 - _)";
+  "network/ip: << uint32: (4294967295 << (32 - _))";
+  "network/ip: << uint32: (4294967295 << (32 - _))";
   "network/ip: narrow to uint16: uint16(_)";
   "network/ip: narrow to uint16: uint16(_)";
-  "network/ip: narrow to uint8: uint8((_ >> 16) & 0xFF)";
-  "network/ip: narrow to uint8: uint8((_ >> 24) & 0xFF)";
-  "network/ip: narrow to uint8: uint8((_ >> 8) & 0xFF)";
-  "network/ip: narrow to uint8: uint8(_ & 0xFF)";
-  "network/ldap: << uint64: uint64(_[2+0]) << 40";
-  "network/ldap: << uint64: uint64(_[2+1]) << 32";
-  "network/ldap: << uint64: uint64(_[2+2]) << 24";
-  "network/ldap: << uint64: uint64(_[2+3]) << 16";
-  "network/ldap: << uint64: uint64(_[2+4]) << 8";
   "network/llmnr: ++ uint16: _++";
   "network/llmnr: ++ uint16: _++";
   "network/llmnr: ++ uint16: _++";
   "network/llmnr: ++ uint16: _++";
-  "network/llmnr: narrow to uint16: uint16(len(_.Additional))";
-  "network/llmnr: narrow to uint16: uint16(len(_.Answers))";
-  "network/llmnr: narrow to uint16: uint16(len(_.Answers))";
-  "network/llmnr: narrow to uint16: uint16(len(_.Authority))";
-  "network/llmnr: narrow to uint16: uint16(len(_.Questions))";
-  "network/llmnr: narrow to uint16: uint16(len(_.Questions))";
-  "network/llmnr: narrow to uint16: uint16(len(_.Questions))";
-  "network/llmnr: narrow to uint16: uint16(len(_.Questions))";
-  "network/llmnr: narrow to uint16: uint16(len(_.RData))";
-  "network/llmnr: narrow to uint16: uint16(len(_.RData))";
-  "network/llmnr: narrow to uint16: uint16(len(_.RData))";
-  "network/netbios/nbt: narrow to uint8: byte((_ >> 16) & 0x01)";
-  "network/netbios/nbt: narrow to uint8: byte((_ >> 8) & 0xFF)";
-  "network/netbios/nbt: narrow to uint8: byte(_ & 0xFF)";
-  "network/netbios/nbtns: + uint8: ((_[_] >> 4) & 0x0F) + _";
-  "network/netbios/nbtns: + uint8: (_[_] & 0x0F) + _";
+  "network/llmnr: narrow to uint16: uint16(len(_))";
+  "network/llmnr: narrow to uint16: uint16(len(_))";
+  "network/llmnr: narrow to uint16: uint16(len(_))";
+  "network/llmnr: narrow to uint16: uint16(len(_))";
+  "network/llmnr: narrow to uint16: uint16(len(_))";
+  "network/llmnr: narrow to uint16: uint16(len(_))";
+  "network/llmnr: narrow to uint16: uint16(len(_))";
+  "network/llmnr: narrow to uint16: uint16(len(_))";
+  "network/llmnr: narrow to uint16: uint16(len(_))";
+  "network/llmnr: narrow to uint16: uint16(len(_))";
+  "network/llmnr: narrow to uint16: uint16(len(_))";
   "network/netbios/nbtns: ++ uint16: _++";
   "network/netbios/nbtns: ++ uint16: _++";
   "network/netbios/nbtns: narrow to uint16: uint16(len(_))";
-  "network/netbios/nbtns: narrow to uint16: uint16(len(_.Answers))";
-  "network/netbios/nbtns: narrow to uint16: uint16(len(_.Answers))";
-  "network/netbios/nbtns: narrow to uint16: uint16(len(_.Answers))";
-  "network/netbios/nbtns: narrow to uint8: byte(_.ServerPort >> 8)";
-  "network/netbios/nbtns: narrow to uint8: byte(_.ServerPort)";
+  "network/netbios/nbtns: narrow to uint16: uint16(len(_))";
+  "network/netbios/nbtns: narrow to uint16: uint16(len(_))";
+  "network/netbios/nbtns: narrow to uint16: uint16(len(_))";
+  "network/netbios/nbtns: narrow to uint8: byte(_)";
   "network/smb/smb_v10/message/data: narrow to uint16: uint16(len(_))";
-  "network/smb/smb_v10/message/data: narrow to uint16: uint16(len(_.Bytes))";
-  "network/smb/smb_v10/spnego: narrow to uint8: byte(0x80 | len(_))";
-  "network/smb/smb_v10/spnego: narrow to uint8: byte(0x80 | len(_))";
-  "network/smb/smb_v10/spnego: narrow to uint8: byte(_ & 0xFF)";
+  "network/smb/smb_v10/message/data: narrow to uint16: uint16(len(_))";
+  "network/smb/smb_v10/spnego: narrow to uint8: byte((128 | len(_)))";
+  "network/smb/smb_v10/spnego: narrow to uint8: byte((128 | len(_)))";
   "network/smb/smb_v10/spnego: narrow to uint8: byte(_)";
-  "network/smb/smb_v10/spnego/ntlm: << uint8: (_[0] & 0x01) << 6";
-  "network/smb/smb_v10/spnego/ntlm: << uint8: (_[1] & 0x03) << 5";
-  "network/smb/smb_v10/spnego/ntlm: << uint8: (_[2] & 0x07) << 4";
-  "network/smb/smb_v10/spnego/ntlm: << uint8: (_[3] & 0x0F) << 3";
-  "network/smb/smb_v10/spnego/ntlm: << uint8: (_[4] & 0x1F) << 2";
-  "network/smb/smb_v10/spnego/ntlm: << uint8: (_[5] & 0x3F) << 1";
-  "network/smb/smb_v10/spnego/ntlm: << uint8: 1 << _";
-  "network/smb/smb_v10/spnego/ntlm: << uint8: _[_] << 1";
+  "network/smb/smb_v10/spnego/ntlm: << uint8: (1 << _)";
+  "network/smb/smb_v10/spnego/ntlm: << uint8: (_ << 1)";
   "network/smb/smb_v10/spnego/ntlm: narrow to uint16: uint16(len(_))";
   "network/smb/smb_v10/spnego/ntlm: narrow to uint16: uint16(len(_))";
   "network/smb/smb_v10/spnego/ntlm: narrow to uint16: uint16(len(_))";
@@ -245,70 +177,44 @@ Definition expected_wraps_C07 : list string := [
   "network/smb/smb_v10/spnego/ntlm: narrow to uint32: uint32(_)";
   "network/smb/smb_v10/spnego/ntlm: narrow to uint32: uint32(_)";
   "network/smb/smb_v10/spnego/ntlm: narrow to uint32: uint32(_)";
-  "network/smb/smb_v10/types: - uint16: _.Year - 1980";
-  "network/smb/smb_v10/types: << uint16: (_.Year - 1980) << 9";
-  "network/smb/smb_v10/types: << uint16: uint16(_.Month) << 5";
+  "network/smb/smb_v10/types: - uint16: (_ - 1980)";
+  "network/smb/smb_v10/types: << uint16: ((_ - 1980) << 9)";
   "network/smb/smb_v10/types: narrow to uint16: uint16(_)";
   "network/smb/smb_v10/types: narrow to uint16: uint16(len(_))";
   "network/smb/smb_v10/types: narrow to uint16: uint16(len(_))";
   "network/smb/smb_v10/types: narrow to uint16: uint16(len(_))";
   "network/smb/smb_v10/types: narrow to uint8: uint8(_)";
   "network/smb/smb_v10/types: narrow to uint8: uint8(_)";
-  "utils/encoding/utf16: << uint16: uint16(_[_+1]) << 8";
-  "windows/guid: << uint16: uint16(_[5]) << 8";
-  "windows/guid: << uint16: uint16(_[7]) << 8";
-  "windows/guid: << uint16: uint16(_[8]) << 8";
-  "windows/guid: << uint32: uint32(_[1]) << 8";
-  "windows/guid: << uint32: uint32(_[2]) << 16";
-  "windows/guid: << uint32: uint32(_[3]) << 24";
-  "windows/guid: << uint64: _ << 8";
-  "windows/guid: << uint64: _ << 8";
-  "windows/guid: << uint64: uint64(_[10]) << 40";
-  "windows/guid: << uint64: uint64(_[11]) << 32";
-  "windows/guid: << uint64: uint64(_[12]) << 24";
-  "windows/guid: << uint64: uint64(_[13]) << 16";
-  "windows/guid: << uint64: uint64(_[14]) << 8";
+  "windows/guid: << uint64: (_ << 8)";
+  "windows/guid: << uint64: (_ << 8)";
   "windows/guid: narrow to uint16: uint16(_)";
-  "windows/guid: narrow to uint8: byte((_.E >> uint64(_*8)) & 0xff)";
-  "windows/guid: narrow to uint8: byte(_.A >> 16)";
-  "windows/guid: narrow to uint8: byte(_.A >> 24)";
-  "windows/guid: narrow to uint8: byte(_.A >> 8)";
-  "windows/guid: narrow to uint8: byte(_.A)";
-  "windows/guid: narrow to uint8: byte(_.B >> 8)";
-  "windows/guid: narrow to uint8: byte(_.B)";
-  "windows/guid: narrow to uint8: byte(_.C >> 8)";
-  "windows/guid: narrow to uint8: byte(_.C)";
-  "windows/guid: narrow to uint8: byte(_.D >> 8)";
-  "windows/guid: narrow to uint8: byte(_.D)";
-  "windows/keycredential: += uint32: _.RawBytesSize += _.Version.RawBytesSize";
+  "windows/guid: narrow to uint8: byte((_ >> 16))";
+  "windows/guid: narrow to uint8: byte((_ >> 8))";
+  "windows/guid: narrow to uint8: byte(_)";
+  "windows/guid: narrow to uint8: byte(_)";
+  "windows/guid: narrow to uint8: byte(_)";
+  "windows/guid: narrow to uint8: byte(_)";
+  "windows/keycredential: += uint32: _ += _";
   "windows/keycredential: narrow to uint16: uint16(len(_))";
   "windows/keycredential: narrow to uint32: uint32(len(_))";
-  "windows/keycredential/crypto: << uint32: _.Exponent << 8";
-  "windows/keycredential/crypto: narrow to uint32: uint32(_.Value)";
+  "windows/keycredential/crypto: << uint32: (_ << 8)";
+  "windows/keycredential/crypto: narrow to uint32: uint32(_)";
   "windows/keycredential/crypto: narrow to uint32: uint32(len(_))";
   "windows/keycredential/crypto: narrow to uint32: uint32(len(_))";
   "windows/keycredential/crypto: narrow to uint32: uint32(len(_))";
   "windows/keycredential/crypto: narrow to uint32: uint32(len(_))";
-  "windows/keycredential/crypto: narrow to uint32: uint32(len(_.Modulus))";
-  "windows/keycredential/key: - uint32: _.RawBytesSize - 19";
+  "windows/keycredential/crypto: narrow to uint32: uint32(len(_))";
+  "windows/keycredential/key: - uint32: (_ - 19)";
   "windows/keycredential/key: narrow to uint32: uint32(len(_))";
-  "windows/keycredential/key: narrow to uint8: byte(_.Version)";
-  "windows/keycredential/utils: * int64: int64(_%10000000) * 100"
+  "windows/keycredential/key: narrow to uint8: byte(_)"
 ].
 
 Definition expected_wraps_C08 : list string := [
-  "network/smb/smb_v10/spnego: narrow to uint8: byte(0x80 | len(_))";
-  "network/smb/smb_v10/spnego: narrow to uint8: byte(0x80 | len(_))";
-  "network/smb/smb_v10/spnego: narrow to uint8: byte(_ & 0xFF)";
+  "network/smb/smb_v10/spnego: narrow to uint8: byte((128 | len(_)))";
+  "network/smb/smb_v10/spnego: narrow to uint8: byte((128 | len(_)))";
   "network/smb/smb_v10/spnego: narrow to uint8: byte(_)";
-  "network/smb/smb_v10/spnego/ntlm: << uint8: (_[0] & 0x01) << 6";
-  "network/smb/smb_v10/spnego/ntlm: << uint8: (_[1] & 0x03) << 5";
-  "network/smb/smb_v10/spnego/ntlm: << uint8: (_[2] & 0x07) << 4";
-  "network/smb/smb_v10/spnego/ntlm: << uint8: (_[3] & 0x0F) << 3";
-  "network/smb/smb_v10/spnego/ntlm: << uint8: (_[4] & 0x1F) << 2";
-  "network/smb/smb_v10/spnego/ntlm: << uint8: (_[5] & 0x3F) << 1";
-  "network/smb/smb_v10/spnego/ntlm: << uint8: 1 << _";
-  "network/smb/smb_v10/spnego/ntlm: << uint8: _[_] << 1";
+  "network/smb/smb_v10/spnego/ntlm: << uint8: (1 << _)";
+  "network/smb/smb_v10/spnego/ntlm: << uint8: (_ << 1)";
   "network/smb/smb_v10/spnego/ntlm: narrow to uint16: uint16(len(_))";
   "network/smb/smb_v10/spnego/ntlm: narrow to uint16: uint16(len(_))";
   "network/smb/smb_v10/spnego/ntlm: narrow to uint16: uint16(len(_))";
@@ -340,168 +246,94 @@ Definition expected_wraps_C09 : list string := [
   "network/llmnr: ++ uint16: _++";
   "network/llmnr: ++ uint16: _++";
   "network/llmnr: ++ uint16: _++";
-  "network/llmnr: narrow to uint16: uint16(len(_.Additional))";
-  "network/llmnr: narrow to uint16: uint16(len(_.Answers))";
-  "network/llmnr: narrow to uint16: uint16(len(_.Answers))";
-  "network/llmnr: narrow to uint16: uint16(len(_.Authority))";
-  "network/llmnr: narrow to uint16: uint16(len(_.Questions))";
-  "network/llmnr: narrow to uint16: uint16(len(_.Questions))";
-  "network/llmnr: narrow to uint16: uint16(len(_.Questions))";
-  "network/llmnr: narrow to uint16: uint16(len(_.Questions))";
-  "network/llmnr: narrow to uint16: uint16(len(_.RData))";
-  "network/llmnr: narrow to uint16: uint16(len(_.RData))";
-  "network/llmnr: narrow to uint16: uint16(len(_.RData))"
+  "network/llmnr: narrow to uint16: uint16(len(_))";
+  "network/llmnr: narrow to uint16: uint16(len(_))";
+  "network/llmnr: narrow to uint16: uint16(len(_))";
+  "network/llmnr: narrow to uint16: uint16(len(_))";
+  "network/llmnr: narrow to uint16: uint16(len(_))";
+  "network/llmnr: narrow to uint16: uint16(len(_))";
+  "network/llmnr: narrow to uint16: uint16(len(_))";
+  "network/llmnr: narrow to uint16: uint16(len(_))";
+  "network/llmnr: narrow to uint16: uint16(len(_))";
+  "network/llmnr: narrow to uint16: uint16(len(_))";
+  "network/llmnr: narrow to uint16: uint16(len(_))"
 ].
 
 Definition expected_wraps_C10 : list string := [
-  "network/netbios/nbtns: + uint8: ((_[_] >> 4) & 0x0F) + _";
-  "network/netbios/nbtns: + uint8: (_[_] & 0x0F) + _";
   "network/netbios/nbtns: ++ uint16: _++";
   "network/netbios/nbtns: ++ uint16: _++";
   "network/netbios/nbtns: narrow to uint16: uint16(len(_))";
-  "network/netbios/nbtns: narrow to uint16: uint16(len(_.Answers))";
-  "network/netbios/nbtns: narrow to uint16: uint16(len(_.Answers))";
-  "network/netbios/nbtns: narrow to uint16: uint16(len(_.Answers))";
-  "network/netbios/nbtns: narrow to uint8: byte(_.ServerPort >> 8)";
-  "network/netbios/nbtns: narrow to uint8: byte(_.ServerPort)"
+  "network/netbios/nbtns: narrow to uint16: uint16(len(_))";
+  "network/netbios/nbtns: narrow to uint16: uint16(len(_))";
+  "network/netbios/nbtns: narrow to uint16: uint16(len(_))";
+  "network/netbios/nbtns: narrow to uint8: byte(_)"
 ].
 
 Definition expected_wraps_C11 : list string := [
-  "network/netbios/nbt: narrow to uint8: byte((_ >> 16) & 0x01)";
-  "network/netbios/nbt: narrow to uint8: byte((_ >> 8) & 0xFF)";
-  "network/netbios/nbt: narrow to uint8: byte(_ & 0xFF)"
+
 ].
 
 Definition expected_wraps_C12 : list string := [
-  "crypto/cmac: << uint8: _[_] << 1";
+  "crypto/cmac: << uint8: (_ << 1)";
   "crypto/pkcs7: narrow to uint8: byte(_)";
-  "crypto/rc4: + uint8: _.s[_] + _[_%_]";
+  "crypto/rc4: + uint8: (_ + _)";
   "crypto/rc4: ++ uint8: _++";
-  "crypto/rc4: += uint8: _ += _.s[_]";
-  "crypto/rc4: += uint8: _ += _.s[_] + _[_%_]";
+  "crypto/rc4: += uint8: _ += (_ + _)";
+  "crypto/rc4: += uint8: _ += _";
+  "crypto/rc4: narrow to uint8: uint8((int(_) + int(_)))";
   "crypto/rc4: narrow to uint8: uint8(_)";
-  "crypto/rc4: narrow to uint8: uint8(_)";
-  "crypto/rc4: narrow to uint8: uint8(int(_.s[_]) + int(_.s[_]))"
+  "crypto/rc4: narrow to uint8: uint8(_)"
 ].
 
 Definition expected_wraps_C13 : list string := [
-  "crypto/uuid: << uint8: (_.Variant & 0xF) << 4";
-  "crypto/uuid: << uint8: (_.Version & 0xF) << 4";
-  "crypto/uuid: << uint8: (_[6] & 0x0F) << 4";
-  "crypto/uuid: << uint8: (_[7] & 0x0F) << 4";
-  "crypto/uuid: << uint8: _ & 0xF << 4";
-  "crypto/uuid/uuid_v1: * int64: int64(_%10000000) * 100";
-  "crypto/uuid/uuid_v1: - int64: int64(_/10000000) - int64(_/10000000)";
-  "crypto/uuid/uuid_v1: << uint8: byte(_&0x0F) << 4";
-  "crypto/uuid/uuid_v1: narrow to uint16: uint16((_.Time & 0x0000FFFF00000000) >> 32)";
-  "crypto/uuid/uuid_v1: narrow to uint16: uint16((_.Time & 0x0FFF000000000000) >> 48)";
-  "crypto/uuid/uuid_v1: narrow to uint32: uint32(_.Time & 0x00000000FFFFFFFF)";
-  "crypto/uuid/uuid_v1: narrow to uint8: byte((_ >> 4) & 0xFF)";
-  "crypto/uuid/uuid_v1: narrow to uint8: byte((_.ClockSeq & 0x0F00) >> 8)";
-  "crypto/uuid/uuid_v1: narrow to uint8: byte(_ & 0x0F)";
-  "crypto/uuid/uuid_v1: narrow to uint8: byte(_.ClockSeq & 0xFF)";
-  "crypto/uuid/uuid_v2: * int64: int64(_%10000000) * 100";
-  "crypto/uuid/uuid_v2: - int64: int64(_/10000000) - int64(_/10000000)";
-  "crypto/uuid/uuid_v2: << uint8: byte(_&0x0F) << 4";
-  "crypto/uuid/uuid_v2: narrow to uint16: uint16((_.Time & 0x0000FFFF00000000) >> 32)";
-  "crypto/uuid/uuid_v2: narrow to uint16: uint16((_.Time & 0x0FFF000000000000) >> 48)";
-  "crypto/uuid/uuid_v2: narrow to uint8: byte((_ >> 4) & 0xFF)";
-  "crypto/uuid/uuid_v2: narrow to uint8: byte(_ & 0x0F)";
-  "windows/guid: << uint16: uint16(_[5]) << 8";
-  "windows/guid: << uint16: uint16(_[7]) << 8";
-  "windows/guid: << uint16: uint16(_[8]) << 8";
-  "windows/guid: << uint32: uint32(_[1]) << 8";
-  "windows/guid: << uint32: uint32(_[2]) << 16";
-  "windows/guid: << uint32: uint32(_[3]) << 24";
-  "windows/guid: << uint64: _ << 8";
-  "windows/guid: << uint64: _ << 8";
-  "windows/guid: << uint64: uint64(_[10]) << 40";
-  "windows/guid: << uint64: uint64(_[11]) << 32";
-  "windows/guid: << uint64: uint64(_[12]) << 24";
-  "windows/guid: << uint64: uint64(_[13]) << 16";
-  "windows/guid: << uint64: uint64(_[14]) << 8";
+  "windows/guid: << uint64: (_ << 8)";
+  "windows/guid: << uint64: (_ << 8)";
   "windows/guid: narrow to uint16: uint16(_)";
-  "windows/guid: narrow to uint8: byte((_.E >> uint64(_*8)) & 0xff)";
-  "windows/guid: narrow to uint8: byte(_.A >> 16)";
-  "windows/guid: narrow to uint8: byte(_.A >> 24)";
-  "windows/guid: narrow to uint8: byte(_.A >> 8)";
-  "windows/guid: narrow to uint8: byte(_.A)";
-  "windows/guid: narrow to uint8: byte(_.B >> 8)";
-  "windows/guid: narrow to uint8: byte(_.B)";
-  "windows/guid: narrow to uint8: byte(_.C >> 8)";
-  "windows/guid: narrow to uint8: byte(_.C)";
-  "windows/guid: narrow to uint8: byte(_.D >> 8)";
-  "windows/guid: narrow to uint8: byte(_.D)";
-  "windows/ms_dtyp/common/data_structures: * int64: (_ % 10000000) * 100";
-  "windows/ms_dtyp/common/data_structures: - int64: _/10000000 - _/10000000";
-  "windows/ms_dtyp/common/data_structures: << int64: int64(_.DwHighDateTime) & 0xFFFFFFFF << 32"
+  "windows/guid: narrow to uint8: byte((_ >> 16))";
+  "windows/guid: narrow to uint8: byte((_ >> 8))";
+  "windows/guid: narrow to uint8: byte(_)";
+  "windows/guid: narrow to uint8: byte(_)";
+  "windows/guid: narrow to uint8: byte(_)";
+  "windows/guid: narrow to uint8: byte(_)";
+  "windows/ms_dtyp/common/data_structures: * int64: ((_ % 10000000) * 100)";
+  "windows/ms_dtyp/common/data_structures: - int64: ((_ / 10000000) - 11644473600)";
+  "windows/ms_dtyp/common/data_structures: << int64: ((int64(_) & 4294967295) << 32)"
 ].
 
 Definition expected_wraps_C14 : list string := [
-  "windows/keycredential: += uint32: _.RawBytesSize += _.Version.RawBytesSize";
+  "windows/keycredential: += uint32: _ += _";
   "windows/keycredential: narrow to uint16: uint16(len(_))";
   "windows/keycredential: narrow to uint32: uint32(len(_))";
-  "windows/keycredential/crypto: << uint32: _.Exponent << 8";
-  "windows/keycredential/crypto: narrow to uint32: uint32(_.Value)";
+  "windows/keycredential/crypto: << uint32: (_ << 8)";
+  "windows/keycredential/crypto: narrow to uint32: uint32(_)";
   "windows/keycredential/crypto: narrow to uint32: uint32(len(_))";
   "windows/keycredential/crypto: narrow to uint32: uint32(len(_))";
   "windows/keycredential/crypto: narrow to uint32: uint32(len(_))";
   "windows/keycredential/crypto: narrow to uint32: uint32(len(_))";
-  "windows/keycredential/crypto: narrow to uint32: uint32(len(_.Modulus))";
-  "windows/keycredential/key: - uint32: _.RawBytesSize - 19";
+  "windows/keycredential/crypto: narrow to uint32: uint32(len(_))";
+  "windows/keycredential/key: - uint32: (_ - 19)";
   "windows/keycredential/key: narrow to uint32: uint32(len(_))";
-  "windows/keycredential/key: narrow to uint8: byte(_.Version)";
-  "windows/keycredential/utils: * int64: int64(_%10000000) * 100"
+  "windows/keycredential/key: narrow to uint8: byte(_)"
 ].
 
 Definition expected_wraps_C15 : list string := [
-  "crypto/uuid/uuid_v1: * int64: int64(_%10000000) * 100";
-  "crypto/uuid/uuid_v1: - int64: int64(_/10000000) - int64(_/10000000)";
-  "crypto/uuid/uuid_v1: << uint8: byte(_&0x0F) << 4";
-  "crypto/uuid/uuid_v1: narrow to uint16: uint16((_.Time & 0x0000FFFF00000000) >> 32)";
-  "crypto/uuid/uuid_v1: narrow to uint16: uint16((_.Time & 0x0FFF000000000000) >> 48)";
-  "crypto/uuid/uuid_v1: narrow to uint32: uint32(_.Time & 0x00000000FFFFFFFF)";
-  "crypto/uuid/uuid_v1: narrow to uint8: byte((_ >> 4) & 0xFF)";
-  "crypto/uuid/uuid_v1: narrow to uint8: byte((_.ClockSeq & 0x0F00) >> 8)";
-  "crypto/uuid/uuid_v1: narrow to uint8: byte(_ & 0x0F)";
-  "crypto/uuid/uuid_v1: narrow to uint8: byte(_.ClockSeq & 0xFF)";
-  "crypto/uuid/uuid_v2: * int64: int64(_%10000000) * 100";
-  "crypto/uuid/uuid_v2: - int64: int64(_/10000000) - int64(_/10000000)";
-  "crypto/uuid/uuid_v2: << uint8: byte(_&0x0F) << 4";
-  "crypto/uuid/uuid_v2: narrow to uint16: uint16((_.Time & 0x0000FFFF00000000) >> 32)";
-  "crypto/uuid/uuid_v2: narrow to uint16: uint16((_.Time & 0x0FFF000000000000) >> 48)";
-  "crypto/uuid/uuid_v2: narrow to uint8: byte((_ >> 4) & 0xFF)";
-  "crypto/uuid/uuid_v2: narrow to uint8: byte(_ & 0x0F)";
-  "network/ldap: << uint64: uint64(_[2+0]) << 40";
-  "network/ldap: << uint64: uint64(_[2+1]) << 32";
-  "network/ldap: << uint64: uint64(_[2+2]) << 24";
-  "network/ldap: << uint64: uint64(_[2+3]) << 16";
-  "network/ldap: << uint64: uint64(_[2+4]) << 8";
-  "windows/keycredential/utils: * int64: int64(_%10000000) * 100";
-  "windows/ms_dtyp/common/data_structures: * int64: (_ % 10000000) * 100";
-  "windows/ms_dtyp/common/data_structures: - int64: _/10000000 - _/10000000";
-  "windows/ms_dtyp/common/data_structures: << int64: int64(_.DwHighDateTime) & 0xFFFFFFFF << 32"
+  "windows/ms_dtyp/common/data_structures: * int64: ((_ % 10000000) * 100)";
+  "windows/ms_dtyp/common/data_structures: - int64: ((_ / 10000000) - 11644473600)";
+  "windows/ms_dtyp/common/data_structures: << int64: ((int64(_) & 4294967295) << 32)"
 ].
 
 Definition expected_wraps_C16 : list string := [
-  "network/ldap: << uint64: uint64(_[2+0]) << 40";
-  "network/ldap: << uint64: uint64(_[2+1]) << 32";
-  "network/ldap: << uint64: uint64(_[2+2]) << 24";
-  "network/ldap: << uint64: uint64(_[2+3]) << 16";
-  "network/ldap: << uint64: uint64(_[2+4]) << 8"
+
 ].
 
 Definition expected_wraps_C17 : list string := [
-  "network/netbios/nbtns: + uint8: ((_[_] >> 4) & 0x0F) + _";
-  "network/netbios/nbtns: + uint8: (_[_] & 0x0F) + _";
   "network/netbios/nbtns: ++ uint16: _++";
   "network/netbios/nbtns: ++ uint16: _++";
   "network/netbios/nbtns: narrow to uint16: uint16(len(_))";
-  "network/netbios/nbtns: narrow to uint16: uint16(len(_.Answers))";
-  "network/netbios/nbtns: narrow to uint16: uint16(len(_.Answers))";
-  "network/netbios/nbtns: narrow to uint16: uint16(len(_.Answers))";
-  "network/netbios/nbtns: narrow to uint8: byte(_.ServerPort >> 8)";
-  "network/netbios/nbtns: narrow to uint8: byte(_.ServerPort)"
+  "network/netbios/nbtns: narrow to uint16: uint16(len(_))";
+  "network/netbios/nbtns: narrow to uint16: uint16(len(_))";
+  "network/netbios/nbtns: narrow to uint16: uint16(len(_))";
+  "network/netbios/nbtns: narrow to uint8: byte(_)"
 ].
 
 Definition expected_wraps_C18 : list string := [
@@ -509,54 +341,38 @@ Definition expected_wraps_C18 : list string := [
   "network/llmnr: ++ uint16: _++";
   "network/llmnr: ++ uint16: _++";
   "network/llmnr: ++ uint16: _++";
-  "network/llmnr: narrow to uint16: uint16(len(_.Additional))";
-  "network/llmnr: narrow to uint16: uint16(len(_.Answers))";
-  "network/llmnr: narrow to uint16: uint16(len(_.Answers))";
-  "network/llmnr: narrow to uint16: uint16(len(_.Authority))";
-  "network/llmnr: narrow to uint16: uint16(len(_.Questions))";
-  "network/llmnr: narrow to uint16: uint16(len(_.Questions))";
-  "network/llmnr: narrow to uint16: uint16(len(_.Questions))";
-  "network/llmnr: narrow to uint16: uint16(len(_.Questions))";
-  "network/llmnr: narrow to uint16: uint16(len(_.RData))";
-  "network/llmnr: narrow to uint16: uint16(len(_.RData))";
-  "network/llmnr: narrow to uint16: uint16(len(_.RData))";
-  "network/netbios/nbtns: + uint8: ((_[_] >> 4) & 0x0F) + _";
-  "network/netbios/nbtns: + uint8: (_[_] & 0x0F) + _";
+  "network/llmnr: narrow to uint16: uint16(len(_))";
+  "network/llmnr: narrow to uint16: uint16(len(_))";
+  "network/llmnr: narrow to uint16: uint16(len(_))";
+  "network/llmnr: narrow to uint16: uint16(len(_))";
+  "network/llmnr: narrow to uint16: uint16(len(_))";
+  "network/llmnr: narrow to uint16: uint16(len(_))";
+  "network/llmnr: narrow to uint16: uint16(len(_))";
+  "network/llmnr: narrow to uint16: uint16(len(_))";
+  "network/llmnr: narrow to uint16: uint16(len(_))";
+  "network/llmnr: narrow to uint16: uint16(len(_))";
+  "network/llmnr: narrow to uint16: uint16(len(_))";
   "network/netbios/nbtns: ++ uint16: _++";
   "network/netbios/nbtns: ++ uint16: _++";
   "network/netbios/nbtns: narrow to uint16: uint16(len(_))";
-  "network/netbios/nbtns: narrow to uint16: uint16(len(_.Answers))";
-  "network/netbios/nbtns: narrow to uint16: uint16(len(_.Answers))";
-  "network/netbios/nbtns: narrow to uint16: uint16(len(_.Answers))";
-  "network/netbios/nbtns: narrow to uint8: byte(_.ServerPort >> 8)";
-  "network/netbios/nbtns: narrow to uint8: byte(_.ServerPort)"
+  "network/netbios/nbtns: narrow to uint16: uint16(len(_))";
+  "network/netbios/nbtns: narrow to uint16: uint16(len(_))";
+  "network/netbios/nbtns: narrow to uint16: uint16(len(_))";
+  "network/netbios/nbtns: narrow to uint8: byte(_)"
 ].
 
 Definition expected_wraps_C19 : list string := [
-  "windows/keycredential/key: - uint32: _.RawBytesSize - 19";
+  "windows/keycredential/key: - uint32: (_ - 19)";
   "windows/keycredential/key: narrow to uint32: uint32(len(_))";
-  "windows/keycredential/key: narrow to uint8: byte(_.Version)"
+  "windows/keycredential/key: narrow to uint8: byte(_)"
 ].
 
 Definition expected_wraps_C20 : list string := [
-  "network/ip: - uint8: 32 - _.MaskBits";
-  "network/ip: - uint8: 32 - _.MaskBits";
-  "network/ip: << uint32: uint32(0xFFFFFFFF) << (32 - _.MaskBits)";
-  "network/ip: << uint32: uint32(0xFFFFFFFF) << (32 - _.MaskBits)";
-  "network/ip: << uint32: uint32(_.A) << 24";
-  "network/ip: << uint32: uint32(_.B) << 16";
-  "network/ip: << uint32: uint32(_.C) << 8";
-  "network/ip: << uint64: uint64(_.A) << 48";
-  "network/ip: << uint64: uint64(_.B) << 32";
-  "network/ip: << uint64: uint64(_.C) << 16";
-  "network/ip: << uint64: uint64(_.E) << 48";
-  "network/ip: << uint64: uint64(_.F) << 32";
-  "network/ip: << uint64: uint64(_.G) << 16";
+  "network/ip: - uint8: (32 - _)";
+  "network/ip: - uint8: (32 - _)";
+  "network/ip: << uint32: (4294967295 << (32 - _))";
+  "network/ip: << uint32: (4294967295 << (32 - _))";
   "network/ip: narrow to uint16: uint16(_)";
-  "network/ip: narrow to uint16: uint16(_)";
-  "network/ip: narrow to uint8: uint8((_ >> 16) & 0xFF)";
-  "network/ip: narrow to uint8: uint8((_ >> 24) & 0xFF)";
-  "network/ip: narrow to uint8: uint8((_ >> 8) & 0xFF)";
-  "network/ip: narrow to uint8: uint8(_ & 0xFF)"
+  "network/ip: narrow to uint16: uint16(_)"
 ].
 
